@@ -239,5 +239,57 @@ func checkSyncRoundTrip(c *an.Ctx, id string, syncFn, flushLoop *ssa.Function) {
 			}
 		}
 		c.Min(id, "receives from the write queue", nTake, 2)
+		// … and the loop ends only on the stop signal (a nil batch), after that batch went through the
+		// same step (which flushes what is pending): it never stops after an ordinary batch and never
+		// goes on after the signal
+		var batches []string
+		for _, s := range selects {
+			for k, st := range s.States {
+				if st.Send == nil && isChan(st.Chan, "writes") {
+					if v := recvOf(s, k); v != nil {
+						batches = append(batches, t.Of(v))
+					}
+				}
+			}
+		}
+		nRet := 0
+		for _, r := range ff.Returns() {
+			nRet++
+			fs := ff.AtInstr(r)
+			okStop := false
+			for _, b := range batches {
+				if fs.Has(an.EQ(b, "nil")) {
+					okStop = true
+				}
+			}
+			c.Check(okStop, id, "write-loop-stops-only-on-signal", "the write loop returns only after it received the stop signal (a nil batch)", flushLoop, r, "", fs)
+		}
+		c.Min(id, "exits of the write loop", nRet, 2)
+		for _, s := range selects {
+			for k, st := range s.States {
+				if st.Send != nil || !isChan(st.Chan, "writes") {
+					continue
+				}
+				v := recvOf(s, k)
+				if v == nil {
+					continue
+				}
+				pr := ff.Prune(an.EQ(t.Of(s)+"#0", fmt.Sprint(k)), an.EQ(t.Of(v), "nil"))
+				again := false
+				for _, pred := range s.Block().Preds {
+					if pr.Reachable(pred) && !pr.Removed(pred, s.Block()) && ff.Dominates(s.Block(), pred) {
+						again = true
+					}
+				}
+				// the select may sit in an inner loop: going on means reaching any select of the loop again
+				fl := an.Flow{Fn: flushLoop, Skip: pr.Removed}
+				for _, s2 := range selects {
+					if pr.Reachable(s2.Block()) && s2 != s && fl.CanReach(s, s2) {
+						again = true
+					}
+				}
+				c.Check(!again && !(an.Flow{Fn: flushLoop, Skip: pr.Removed}).CanReach(s, s), id, "write-loop-stops-on-signal", "after the stop signal the write loop takes nothing more off its queues", flushLoop, s, "", nil)
+			}
+		}
 	}
 }
